@@ -186,6 +186,9 @@ let hist_case id (c : sx) =
           if not (plan_okb h plan) then mismatch id "the run plan is rejected by plan_okb (a commit is not replayed on exactly its ancestry)"
           else begin
             count "plan_ok";
+            (* hypotheses of C01_global_sparse / C01_matrix hold for this case *)
+            if List.for_all (fun t -> iz t < 16383) h.h_ticks then count "covered_by_C01_global_sparse";
+            if merge_freeb plan then count "plans_without_merge";
             if single && not (master_all h plan) then mismatch id "single head but the master branch does not hold every commit";
             let npeople = if people then List.length dict else 0 in
             let cf = { c_people = zi npeople; c_files = files } in
